@@ -68,6 +68,11 @@ def render(case, spelling):
     lines.append(HEADER)
 
     def ann(name):
+        if spelling == 'partial':
+            # only the class name is a string, inside an evaluated parent: list['Target'], Optional['Target[int]'], ...
+            if wrap in SUBBED:
+                return ann_source(SUBBED[wrap], repr('%s[int]' % name))
+            return ann_source(wrap, repr(name))
         src = ann_source(wrap, name)
         return repr(src) if spelling == 'str' else src
     classes_first = order == 'class-first' or spelling == 'eval'
@@ -213,12 +218,16 @@ def strategy(tier):
         del d['subbed']
         if d['place'] not in SUBBED_PLACES or d['wrap'] in ('set',):
             d['flavour'] = 'plain'
+        if d['spelling'] == 'partial' and d['wrap'] == 'PipeNone':
+            d['wrap'] = 'Optional'    # 'Target' | None is a TypeError of Python itself
         return d
     return st.fixed_dictionaries({
         'place': st.sampled_from(['module', 'module', 'method', 'method-classdeco', 'nested-method', 'nested2-method', 'closure', 'closure2',
                                   'nested-alias', 'nested2-alias', 'nested-sibling', 'nested2-sibling']),
         'wrap': st.sampled_from(WRAPS), 'order': st.sampled_from(['class-first', 'class-later', 'class-after-first-call']),
-        'spelling': st.sampled_from(['str', 'future']),
+        'spelling': st.sampled_from(['str', 'future', 'partial']),
+        # the same source executed once before as another module: same annotation text, other classes of the same names
+        'decoy': st.booleans(),
         'subbed': st.sampled_from([None, None] + sorted(SUBBED)),
         'flavour': st.sampled_from(['listint', 'dictstrint', 'plain', 'plain']),
     }).map(fix)
@@ -244,6 +253,12 @@ def run_case(case):
             return {'fails': [], 'nontrivial': False, 'classes': ['discarded:reference-unbuildable:%s' % type(e).__name__], 'evals': 0,
                     'extra': {'discarded_reference': 1}}
         src = render(case, spelling)
+        if case.get('decoy'):
+            try:
+                dmod, _ = load(src)
+                verdicts(dmod, wrap)
+            except Exception:
+                pass    # whatever is wrong with this source is reported for the module under test below
         history = case['order'] == 'class-after-first-call' and place == 'module'
         try:
             mod, rest = load(src, stop_before_classes=history)
